@@ -46,15 +46,23 @@ func verif_contract_AddrList_index(s *AddrList, mac net.HardwareAddr) int {
 // Add: a MAC already present changes nothing (idempotent); otherwise the address is appended.
 //
 //verif:props C14
-func verif_contract_AddrList_Add(s *AddrList, addr Addr) error {
+func verif_contract_AddrList_Add(s *AddrList, addr Addr, k int) error {
 	vRequires(s != nil)
 	vCanary()
 	was := spec_addr_index(s.list, addr.MAC, 0)
 	n0 := len(s.list)
+	var ek Addr
+	if 0 <= k && k < n0 {
+		ek = s.list[k]
+	}
 	vModifiesObj(s)
 	vModifiesMems("elem:struct{MAC net.HardwareAddr")
 	err := s.Add(addr)
 	vEnsures(err == nil)
+	// every entry that was there stays where it was (k is an arbitrary position)
+	if 0 <= k && k < n0 {
+		vEnsures(s.list[k].IP == ek.IP && len(s.list[k].MAC) == len(ek.MAC) && (len(ek.MAC) == 0 || (vSameRegion(s.list[k].MAC, ek.MAC) && vOffset(s.list[k].MAC, ek.MAC) == 0)))
+	}
 	if was != -1 {
 		vEnsures(len(s.list) == n0)
 	} else {
@@ -63,22 +71,37 @@ func verif_contract_AddrList_Add(s *AddrList, addr Addr) error {
 	return err
 }
 
-// Del: afterwards the list is one shorter when the MAC was present, unchanged otherwise.
+// Del removes exactly the first entry with that MAC and keeps every other entry, in order
+// (k is an arbitrary position: the statement holds for all of them); a MAC that is not present
+// changes nothing.
 //
 //verif:props C14
-func verif_contract_AddrList_Del(s *AddrList, addr Addr) error {
+func verif_contract_AddrList_Del(s *AddrList, addr Addr, k int) error {
 	vRequires(s != nil)
 	vCanary()
 	was := spec_addr_index(s.list, addr.MAC, 0)
 	n0 := len(s.list)
+	var ek Addr
+	if 0 <= k && k < n0 {
+		ek = s.list[k]
+	}
 	vModifiesObj(s)
-	vModifiesMems("elem:struct{MAC net.HardwareAddr")
+	vModifiesElems(s.list)
 	err := s.Del(addr)
 	vEnsures(err == nil)
 	if was == -1 {
 		vEnsures(len(s.list) == n0)
+		if 0 <= k && k < n0 {
+			vEnsures(s.list[k].IP == ek.IP && len(s.list[k].MAC) == len(ek.MAC) && (len(ek.MAC) == 0 || (vSameRegion(s.list[k].MAC, ek.MAC) && vOffset(s.list[k].MAC, ek.MAC) == 0)))
+		}
 	} else {
 		vEnsures(len(s.list) == n0-1)
+		if 0 <= k && k < was {
+			vEnsures(s.list[k].IP == ek.IP && len(s.list[k].MAC) == len(ek.MAC) && (len(ek.MAC) == 0 || (vSameRegion(s.list[k].MAC, ek.MAC) && vOffset(s.list[k].MAC, ek.MAC) == 0)))
+		}
+		if was < k && k < n0 {
+			vEnsures(s.list[k-1].IP == ek.IP && len(s.list[k-1].MAC) == len(ek.MAC) && (len(ek.MAC) == 0 || (vSameRegion(s.list[k-1].MAC, ek.MAC) && vOffset(s.list[k-1].MAC, ek.MAC) == 0)))
+		}
 	}
 	return err
 }
